@@ -8,6 +8,7 @@ package mcp
 
 import (
 	"bufio"
+	"bytes"
 	"context"
 	"encoding/json"
 	"fmt"
@@ -49,7 +50,6 @@ type stdioClientTransport struct {
 	stderr  io.ReadCloser
 
 	encoder   *json.Encoder
-	decoder   *json.Decoder
 	requestID atomic.Int64
 
 	requestMutex    sync.Mutex
@@ -171,9 +171,8 @@ func (t *stdioClientTransport) startProcess() error {
 	t.stdout = stdout
 	t.stderr = stderr
 
-	// Create JSON encoder/decoder.
+	// Create JSON encoder (stdout is read line by line in readLoop).
 	t.encoder = json.NewEncoder(stdin)
-	t.decoder = json.NewDecoder(stdout)
 
 	// Start background goroutines.
 	go t.readLoop()
@@ -314,12 +313,24 @@ func (t *stdioClientTransport) readLoop() {
 		}
 	}()
 
+	// Messages are newline-delimited, one JSON value per line. Reading line by line keeps a malformed
+	// line from affecting the lines after it; a json.Decoder over the whole stream keeps returning its
+	// first syntax error forever (or takes the following lines for the rest of a truncated value).
+	reader := bufio.NewReader(t.stdout)
 	for !t.closed.Load() {
-		var rawMessage json.RawMessage
-		if err := t.decoder.Decode(&rawMessage); err != nil {
-			if err == io.EOF || t.closed.Load() {
-				break
+		line, readErr := reader.ReadBytes('\n')
+		if readErr != nil && len(bytes.TrimSpace(line)) == 0 {
+			if readErr != io.EOF && !t.closed.Load() {
+				t.logger.Errorf("Error reading message: %v", readErr)
 			}
+			break
+		}
+		line = bytes.TrimSpace(line)
+		if len(line) == 0 {
+			continue
+		}
+		var rawMessage json.RawMessage
+		if err := json.Unmarshal(line, &rawMessage); err != nil {
 			t.logger.Errorf("Error reading message: %v", err)
 			continue
 		}
